@@ -1,3 +1,4 @@
+import DarkluaModel.C07.VisitEqs
 import DarkluaModel.C07.Cover
 namespace DarkluaModel.C07
 open DarkluaModel.Rules Visitor
